@@ -214,13 +214,15 @@ def conPts (k : Con α) : List Pt :=
   | .point => []
   | .inf => []
 
-def userRows : List (Row α) :=
-  c.o.cons.flatMap fun k =>
-    match k.grid with
-    | .point => [{ tag := s!"user {k.id} point", atoms := conAtoms k (c.envGlobal c.phValues) }]
-    | _ => (c.conPts k).map fun p =>
-        let off := match p with | .node q => c.offVals k q | _ => #[]
-        { tag := s!"user {k.id} {ptTag p}", atoms := conAtoms k (c.envPt p off) }
+/-- the rows a declared constraint contributes -/
+def conRows (k : Con α) : List (Row α) :=
+  match k.grid with
+  | .point => [{ tag := s!"user {k.id} point", atoms := conAtoms k (c.envGlobal c.phValues) }]
+  | _ => (c.conPts k).map fun p =>
+      let off := match p with | .node q => c.offVals k q | _ => #[]
+      { tag := s!"user {k.id} {ptTag p}", atoms := conAtoms k (c.envPt p off) }
+
+def userRows : List (Row α) := c.o.cons.flatMap c.conRows
 
 def eqAtoms (lhs rhs scale : Array α) : List α :=
   (List.range lhs.size).flatMap fun r =>
